@@ -56,6 +56,10 @@ class Model:
         self.use_stack: list[int] = []       # eids of active use-macro sites
         self.frames: list[dict] = []         # slot fills per macro invocation
         self.fail_stack: dict[int, list] = {}  # id(exc) -> use_stack snapshot
+        self.fail_info: dict[int, tuple] = {}  # id(exc) -> (site, fn depth)
+        self.fn_depth = 0             # nesting of render functions
+        self.err_records: list = []   # what fallbacks read from ``error``
+        self._keep: list = []         # keeps exceptions alive (ids stay unique)
 
     def _scan(self, n: dict) -> None:
         if n["t"] != "el":
@@ -73,6 +77,7 @@ class Model:
                 return self.probe(e["id"])
             except BaseException as exc:
                 self.fail_stack[id(exc)] = list(self.use_stack)
+                self.fail_info[id(exc)] = (e["id"], self.fn_depth)
                 raise
         if k == "load":
             return ("template", e["file"])
@@ -107,6 +112,15 @@ class Model:
         if k == "string":
             return self.string_parts(e["parts"])
         if k == "errinfo":
+            exc = self.error.value
+            info = self.fail_info.get(id(exc))
+            self.err_records.append({
+                "type": self.error.type.__name__,
+                "args": list(getattr(exc, "args", ())),
+                "site": info[0] if info else None,
+                # the failure happened in the same render function as the
+                # handler (not inside a macro call or slot content)?
+                "same_function": bool(info) and info[1] == self.fn_depth})
             return self.error.type.__name__
         raise ValueError(k)
 
@@ -183,6 +197,7 @@ class Model:
             del self.out[mark:]
             self.handled += 1
             prev = self.error
+            self._keep.append(exc)
             self.error = ErrorInfoModel(exc)
             if self.handler is not None:
                 self.handler(exc)
@@ -210,16 +225,23 @@ class Model:
         if n.get("define_macro") and not via_use:
             # rendered in place: its own invocation, no slot is filled
             self.frames.append({})
+            self.fn_depth += 1
             try:
                 self.element(n, switch_state, via_use=True)
             finally:
+                self.fn_depth -= 1
                 self.frames.pop()
             return
         slot = n.get("define_slot")
         if slot and self.frames and slot in self.frames[-1]:
             # the caller's fill-slot element replaces this element,
-            # statements and all (only on-error stays around it)
-            self.element(self.frames[-1][slot], None)
+            # statements and all (only on-error stays around it); it runs
+            # in a function of its own
+            self.fn_depth += 1
+            try:
+                self.element(self.frames[-1][slot], None)
+            finally:
+                self.fn_depth -= 1
             return
         for scope, name, e in n["define"]:
             self.ev(e)
@@ -252,9 +274,11 @@ class Model:
                      if c["t"] == "el" and c.get("fill_slot")}
             self.use_stack.append(n["eid"])
             self.frames.append(fills)
+            self.fn_depth += 1
             try:
                 self.element(self.macros[n["use_macro"]], None, via_use=True)
             finally:
+                self.fn_depth -= 1
                 self.frames.pop()
                 self.use_stack.pop()
             return
@@ -343,6 +367,7 @@ class Model:
         res["history"] = list(self.probe.history)
         res["handler"] = list(self.handler.calls) if self.handler else []
         res["handled"] = self.handled
+        res["err_records"] = self.err_records
         return res
 
 
